@@ -694,6 +694,9 @@ func (s *Sched) Loop() {
 		if s.OnStep != nil {
 			s.mu.Unlock()
 			v := s.OnStep(s)
+			// the observer may have started tasks (a process restarted after a kill):
+			// they must have reached their first park point before candidates are collected
+			synctest.Wait()
 			s.mu.Lock()
 			if v != nil {
 				v.Step = s.step
